@@ -512,6 +512,9 @@ func (c *codegen) seq(list []ast.Stmt, k cont) []string {
 	if c.phase5 {
 		c.noteBlockLabels(list, k) // code_parse.go: goto targets inside nested blocks
 	}
+	if lines, done := c.nilGuard(s); done { // code_nil.go: dereference of a nil pointer parameter
+		return lines
+	}
 	wrap := func(lines []string) []string {
 		return append(append(c.flush(s), lines...), c.seq(rest, k)...)
 	}
@@ -634,6 +637,7 @@ func (c *codegen) ifStmt(x *ast.IfStmt, rest []ast.Stmt, k cont) []string {
 	cond := c.cond(x.Cond)
 	lines = append(lines, c.flush(x.Cond)...)
 	thenL, elseL := x.Body.List, elseList(x)
+	nilV, nilThen, nilElse := c.nilTest(x) // code_nil.go: `if p == nil` decides the nil-ness of p in the branches
 
 	if !c.jumps(thenL) && !c.jumps(elseL) {
 		vars := c.assignedOuter(x, thenL, elseL)
@@ -687,14 +691,14 @@ func (c *codegen) ifStmt(x *ast.IfStmt, rest []ast.Stmt, k cont) []string {
 	}
 	var a, b []string
 	if terminates(thenL) {
-		a = c.block(thenL, nil)
+		a = c.inNil(nilV, nilThen, func() []string { return c.block(thenL, nil) })
 	} else {
-		a = c.block(thenL, restK)
+		a = c.inNil(nilV, nilThen, func() []string { return c.block(thenL, restK) })
 	}
 	if terminates(elseL) {
-		b = c.block(elseL, nil)
+		b = c.inNil(nilV, nilElse, func() []string { return c.block(elseL, nil) })
 	} else {
-		b = c.block(elseL, restK)
+		b = c.inNil(nilV, nilElse, func() []string { return c.block(elseL, restK) })
 	}
 	c.pop()
 	lines = append(lines, "if "+cond+" then")
@@ -711,20 +715,23 @@ func (c *codegen) ifStmt(x *ast.IfStmt, rest []ast.Stmt, k cont) []string {
 
 // joinRhs renders a return-free if / else-if chain whose branches end in y.
 func (c *codegen) joinRhs(x *ast.IfStmt, cond string, y cont) []string {
+	nilV, nilThen, nilElse := c.nilTest(x) // code_nil.go
 	rhs := []string{"if " + cond + " then"}
-	rhs = append(rhs, ind(c.block(x.Body.List, y), 2)...)
+	rhs = append(rhs, ind(c.inNil(nilV, nilThen, func() []string { return c.block(x.Body.List, y) }), 2)...)
 	el := elseList(x)
 	if len(el) == 1 {
 		if ei, ok := el[0].(*ast.IfStmt); ok && ei.Init == nil {
-			c.push()
-			sub := c.joinRhs(ei, c.cond(ei.Cond), y)
-			c.pop()
+			sub := c.inNil(nilV, nilElse, func() []string {
+				c.push()
+				defer c.pop()
+				return c.joinRhs(ei, c.cond(ei.Cond), y)
+			})
 			sub[0] = "else " + sub[0]
 			return append(rhs, sub...)
 		}
 	}
 	rhs = append(rhs, "else")
-	return append(rhs, ind(c.block(el, y), 2)...)
+	return append(rhs, ind(c.inNil(nilV, nilElse, func() []string { return c.block(el, y) }), 2)...)
 }
 
 // desugarSwitch turns a switch into a chain of if statements.
